@@ -199,6 +199,65 @@ for failing_inner in (False, True):
             leg.violation(key, f"the manager returned by the registered unwrap_context_generator must replace the generator-based one: obj={ctx.obj!r} "
                                f"is_exiting={ctx.is_exiting} error={st.error!r}")
 
+# a hook that chooses the next manager by looking at the generator frame's OWN active contexts (what the built-in pytest-trio
+# glue does): the frame it is given shows them in both lookup paths - through inner_stack (suspended) and through
+# extract_outermost (exiting)
+class Inner:
+    def __init__(s, tag): s.tag = tag
+    def __enter__(s): return s
+    def __exit__(s, *a): return False
+    def __repr__(s): return f"Inner({s.tag})"
+
+
+def by_contexts(frame, ctx):
+    SEEN.append([c.obj for c in frame.contexts])
+    return frame.contexts[0].obj if frame.contexts else None
+
+
+SEEN = []
+for mode in ("suspended", "exiting"):
+    key = ("gcm-hook-reads-frame-contexts", mode)
+    leg.case(key, True)
+    del SEEN[:]
+    inner = Inner(mode)
+    if mode == "suspended":
+        @contextlib.contextmanager
+        def wrapper5():
+            with inner:
+                yield
+        stackscope.unwrap_context_generator.register(wrapper5.__wrapped__)(by_contexts)
+        def user5():
+            with wrapper5():
+                yield
+        g = user5(); next(g)
+        st = stackscope.extract(g)
+        g.close()
+    else:
+        res5 = {}; FRAME5 = [None]
+        class Probe5:
+            def __enter__(s): return s
+            def __exit__(s, *a):
+                res5["st"] = stackscope.extract_since(FRAME5[0]); return False
+        @contextlib.contextmanager
+        def wrapper6():
+            try:
+                yield
+            finally:
+                with inner:
+                    with Probe5():
+                        pass
+        stackscope.unwrap_context_generator.register(wrapper6.__wrapped__)(by_contexts)
+        def user6():
+            FRAME5[0] = sys._getframe(0)
+            with wrapper6():
+                pass
+        user6()
+        st = res5["st"]
+    ctx = st.frames[0].contexts[0]
+    if ctx.obj is not inner or not SEEN or not SEEN[0] or SEEN[0][0] is not inner:
+        leg.violation(key, f"a registered unwrap_context_generator that reads frame.contexts must see the generator frame's active managers "
+                           f"({mode}): hook saw {SEEN!r}, context obj={ctx.obj!r} error={st.error!r}")
+
 # a more specific elaborate_context hook (for a subclass of the generator-based manager type) that leaves inner_stack unset:
 # the registered unwrap_context_generator must still be applied
 class MyGCM(contextlib._GeneratorContextManager):
